@@ -46,7 +46,7 @@ def gen_cases(tier, seed):
                 cases.append({"id": "L/%s/%d/%s" % (what, ln, route), "biglist": what, "length": ln, "route": route, "seed": ln})
     # metadata that came from another writer (file-level fields fastparquet never writes itself: column_orders) and is re-serialised by
     # merge / append / remove_row_groups / in-place key-value update
-    for i, op in enumerate(["merge", "merge_append", "merge_remove", "update_kv", "merge_overwrite", "write_common", "selection", "merge_handles", "merge_handles_append", "merge_noverify"] * (2 if tier == "quick" else 20)):
+    for i, op in enumerate(["merge", "merge_append", "merge_remove", "update_kv", "merge_overwrite", "write_common", "selection", "merge_handles", "merge_handles_append", "merge_noverify", "update_kv_no_created_by", "append_no_created_by"] * (2 if tier == "quick" else 20)):
         cases.append({"id": "RS/%s/%d" % (op, i), "reser": op, "seed": 7000 + i, "route": "foreign", "nfiles": 2 + i % 3})
     return cases
 
@@ -75,7 +75,8 @@ def reserialise_case(case):
             cols = [{"name": "rid", "ptype": "INT64", "converted": None, "rows": [int(x) for x in range(rid0, rid0 + n)], "use_dict": False, "page_rows": [10 ** 9]},
                     {"name": "s", "ptype": "BYTE_ARRAY", "converted": 0, "rows": [("v%d" % x).encode() for x in rng.integers(0, 50, n)], "use_dict": bool(j % 2), "page_rows": [7]}]
             rid0 += n
-            spec = {"codec": "UNCOMPRESSED", "columns": cols, "row_groups": [n], "column_orders": True, "created_by": "parquet-mr version 1.12.3 (build abc)",
+            spec = {"codec": "UNCOMPRESSED", "columns": cols, "row_groups": [n], "column_orders": True,
+                    "created_by": None if op.endswith("_no_created_by") else "parquet-mr version 1.12.3 (build abc)",
                     # (a key may repeat: key_value_metadata is a list in the format)
                     "kv": [("writer.note", "kept verbatim \u00e9"), ("k%d" % j, "v"), ("dup", "first"), ("between", "x"), ("dup", "second"), ("flag-without-value", None)] if j == 0 else [("writer.note", "kept verbatim \u00e9")]}
             data, fmd = W.build_file(spec)
@@ -135,9 +136,13 @@ def reserialise_case(case):
                         continue      # a selection keeps its parent's num_rows; row-count consistency is C02 / C17's subject, not serialisation
                     res["failures"].append({"kind": "idl_violation", "code": code, "where": "selection._write_common_metadata:%s:%s" % (fn_, where), "detail": detail[:120], **ctx})
                 counters["reserialised_footers_checked"] = counters.get("reserialised_footers_checked", 0) + 1
-        elif op == "update_kv":
+        elif op in ("update_kv", "update_kv_no_created_by"):
             FW.update_file_custom_metadata(paths[0], {"added": "x" * int(rng.integers(1, 40)), "k0": None})
             check(paths[0], "update_kv")
+        elif op == "append_no_created_by":
+            # (an append to a single file of a writer that left created_by out: the field stays as it was - absent)
+            fastparquet.write(paths[0], pd.DataFrame({"rid": np.arange(1000, 1003, dtype="int64"), "s": ["a", "b", "c"]}), append=True, write_index=False)
+            check(paths[0], "append")
         elif op == "write_common":
             pf = fastparquet.ParquetFile(paths[0])
             FW.write_common_metadata(os.path.join(root, "_common_metadata"), pf.fmd, no_row_groups=True)
